@@ -173,6 +173,7 @@ func checkC17(ctx *Ctx, c *Case) error {
 			Nanos   int32
 		}
 		t0, d0 := sn{t.Seconds, t.Nanos}, sn{d.Seconds, d.Nanos}
+		withUnknown(t)
 		sum := new(big.Int).Add(exactNS(t.Seconds, int64(t.Nanos)), exactNS(d.Seconds, int64(d.Nanos)))
 		wantS, wantN := splitNS(sum)
 		res, pan := callAdd(func() *timestamppb.Timestamp { return timepb.Add(t, d) })
@@ -198,6 +199,9 @@ func checkC17(ctx *Ctx, c *Case) error {
 		}
 		if res == t {
 			return fmt.Errorf("Add returned its argument, not a fresh value")
+		}
+		if sharesUnknown(t, res) {
+			return fmt.Errorf("Add({%d,%d},{%d,%d}) returned a value that shares the unknown-field storage of its argument (a struct copy, not a fresh value)", t0.Seconds, t0.Nanos, d0.Seconds, d0.Nanos)
 		}
 		res.Seconds++
 		if t.Seconds != t0.Seconds {
@@ -226,6 +230,7 @@ func checkC17(ctx *Ctx, c *Case) error {
 			return nil
 		}
 		s := time.Duration(c.argI64("std"))
+		withUnknown(t)
 		t0 := struct {
 			Seconds int64
 			Nanos   int32
@@ -238,6 +243,9 @@ func checkC17(ctx *Ctx, c *Case) error {
 		}
 		if res == nil || res == t {
 			return fmt.Errorf("AddStd must return a fresh non-nil value")
+		}
+		if sharesUnknown(t, res) {
+			return fmt.Errorf("AddStd({%d,%d}, %d) returned a value that shares the unknown-field storage of its argument (a struct copy, not a fresh value)", t0.Seconds, t0.Nanos, int64(s))
 		}
 		if t.Seconds != t0.Seconds || t.Nanos != t0.Nanos {
 			return fmt.Errorf("AddStd modified its input")
@@ -298,4 +306,20 @@ func checkC17(ctx *Ctx, c *Case) error {
 		return fmt.Errorf("HARNESS: unknown sub %q", c.Sub)
 	}
 	return nil
+}
+
+// withUnknown gives t a few unknown bytes in a buffer with spare capacity, so
+// that a result which is a struct copy of t can be recognised by its storage.
+func withUnknown(t *timestamppb.Timestamp) {
+	u := make([]byte, 3, 64)
+	copy(u, []byte{0xf8, 0x7f, 0x01})
+	t.ProtoReflect().SetUnknown(u)
+}
+
+func sharesUnknown(t, res *timestamppb.Timestamp) bool {
+	if t == nil || res == nil {
+		return false
+	}
+	a, b := t.ProtoReflect().GetUnknown(), res.ProtoReflect().GetUnknown()
+	return len(a) > 0 && len(b) > 0 && &a[0] == &b[0]
 }
